@@ -196,6 +196,11 @@ class MultimapResolver:
 
     @staticmethod
     def select_noninformative(assignment_list, assignment_indices):
+        # as for the other assignment types, the primary alignment is preferred
+        primary_indices = [i for i in assignment_indices if not assignment_list[i].multimapper]
+        if primary_indices:
+            assignment_indices = primary_indices
+
         # triplets (overlap_length, genomic_region_start, index)
         overlap_index_list = []
         max_overlap_len = 0
